@@ -2,12 +2,12 @@ F = "sampling/include/ebpps_sample_impl.hpp"
 MEMBERS = ["c_", "partial_item_", "data_"]
 PRELUDE = r'''
 typedef uint64_t T;
-struct ebsample { double c_; T* data_; size_t data_size; };
+struct ebsample { double c_; T* data_; size_t data_size; bool partial_has; T partial_val; };   /* optional<T> partial_item_ = (has, value) */
 /* ghost: number of draws, the range of the last draw; an arbitrary input position g_i, its item g_v, and where that item currently is (g_p) */
-uint32_t g_draws, g_last_max; uint32_t g_i, g_p; T g_v;
+uint32_t g_draws, g_last_max, g_last_ret; uint32_t g_i, g_p; T g_v; T g_last0, g_part0;
 /* random_idx(max): TRUSTED to return a value in [0, max) (std::uniform_int_distribution over [0, max - 1]); every outcome is covered; the range asked for is recorded */
-uint32_t random_idx(struct ebsample* self, uint32_t max) __CPROVER_requires(max >= 1) __CPROVER_assigns(g_draws, g_last_max)
-  __CPROVER_ensures(__CPROVER_return_value < max && g_last_max == max && g_draws == __CPROVER_old(g_draws) + 1);
+uint32_t random_idx(struct ebsample* self, uint32_t max) __CPROVER_requires(max >= 1) __CPROVER_assigns(g_draws, g_last_max, g_last_ret)
+  __CPROVER_ensures(__CPROVER_return_value < max && g_last_max == max && g_last_ret == __CPROVER_return_value && g_draws == __CPROVER_old(g_draws) + 1);
 '''
 subsample = {
     "name": "subsample", "file": F, "members": MEMBERS, "match": r"void ebpps_sample<T,A>::subsample\(uint32_t num_samples\)",
@@ -15,12 +15,12 @@ subsample = {
     "pre_rules": [(r"data_\.size\(\)", "data_size", 2), (r"auto erase_start = data_\.begin\(\);", "uint32_t erase_start = 0;", 1),
                   (r"std::swap\(data_\[i\], data_\[j\]\);", "{ T t_ = data_[i]; data_[i] = data_[j]; data_[j] = t_; if (g_p == i) g_p = j; else if (g_p == j) g_p = i; }", 1),
                   (r"data_\.erase\(erase_start, data_\.end\(\)\);", "data_size = erase_start;", 1)],
-    "rules": [(r"(?<![\w>])data_size", "self->data_size", 3)],
+    "rules": [(r"(?<![\w>])data_size", "self->data_size", "any")],
     "methods": ["random_idx"],
     "contract": r'''
 __CPROVER_requires(__CPROVER_rw_ok(self, sizeof(*self)) && self->data_size >= 1 && self->data_size <= ((size_t)1 << 26) && __CPROVER_rw_ok(self->data_, self->data_size * sizeof(T)) && num_samples <= self->data_size)
 __CPROVER_requires(g_i < self->data_size && g_p == g_i && g_v == self->data_[g_i] && g_draws == 0)
-__CPROVER_assigns(self->data_size, g_draws, g_last_max, g_p, __CPROVER_object_whole(self->data_))
+__CPROVER_assigns(self->data_size, g_draws, g_last_max, g_last_ret, g_p, __CPROVER_object_whole(self->data_))
 /* exactly num_samples items are kept */
 __CPROVER_ensures(self->data_size == num_samples)
 /* the items are only permuted before the cut: an arbitrary input item is still in the array, at g_p, and it is kept exactly if it ended up in front of the cut */
@@ -29,26 +29,73 @@ __CPROVER_ensures(g_p < __CPROVER_old(self->data_size) && self->data_[g_p] == g_
 __CPROVER_ensures(num_samples == __CPROVER_old(self->data_size) ? (g_draws == 0 && g_p == g_i) : g_draws == num_samples)
 ''',
     "loops": {1: r'''
-__CPROVER_assigns(i, erase_start, g_draws, g_last_max, g_p, __CPROVER_object_whole(self->data_))
+__CPROVER_assigns(i, erase_start, g_draws, g_last_max, g_last_ret, g_p, __CPROVER_object_whole(self->data_))
 __CPROVER_loop_invariant(i <= num_samples && erase_start == i && g_draws == i && g_p < data_len && self->data_[g_p] == g_v && data_len == (uint32_t)self->data_size)
 /* structural reason for uniformity (Fisher-Yates): draw number i ranges over ALL items not yet fixed, i.e. over data_len - i positions */
 __CPROVER_loop_invariant(i > 0 ==> g_last_max == data_len - (i - 1))
 __CPROVER_decreases(num_samples - i)
 '''},
 }
+PART_RULES = [(r"data_\.size\(\)", "data_size", "any"), (r"conditional_forward<FwdItem>\(item\)", "item", "any")]
+WFS = "__CPROVER_rw_ok(self, sizeof(*self)) && self->data_size >= 1 && self->data_size <= ((size_t)1 << 26) && __CPROVER_rw_ok(self->data_, self->data_size * sizeof(T))"
+set_partial = {
+    "name": "set_partial", "file": F, "members": MEMBERS, "match": r"void ebpps_sample<T,A>::set_partial\(FwdItem&& item\)", "sig": "void set_partial(struct ebsample* self, T item)", "nloops": 0,
+    "pre_rules": PART_RULES + [(r"if \(partial_item_\)", "if (partial_has)", 1), (r"\*partial_item_ = item;", "partial_val = item;", 1), (r"partial_item_\.emplace\(item\);", "{ partial_val = item; partial_has = 1; }", 1)],
+    "rules": [(r"(?<![\w>])partial_(has|val)", r"self->partial_\1", "any")],
+    "contract": "__CPROVER_requires(__CPROVER_rw_ok(self, sizeof(*self)))\n__CPROVER_assigns(self->partial_has, self->partial_val)\n__CPROVER_ensures(self->partial_has && self->partial_val == item)\n",
+}
+move_one = {
+    "name": "move_one_to_partial", "file": F, "members": MEMBERS, "match": r"void ebpps_sample<T,A>::move_one_to_partial\(\)", "sig": "void move_one_to_partial(struct ebsample* self)", "nloops": 0,
+    "pre_rules": PART_RULES + [(r"std::swap\(data_\[idx\], data_\[last_idx\]\);", "{ T t_ = data_[idx]; data_[idx] = data_[last_idx]; data_[last_idx] = t_; }", 1),
+                               (r"data_\.pop_back\(\);", "data_size--;", 1), (r"std::move\(data_\[last_idx\]\)", "data_[last_idx]", 1)],
+    "rules": [(r"(?<![\w>])data_size", "self->data_size", "any")],
+    "methods": ["random_idx", "set_partial"],
+    "contract": "__CPROVER_requires(" + WFS + r""" && g_i < self->data_size && g_v == self->data_[g_i] && g_last0 == self->data_[self->data_size - 1])
+__CPROVER_assigns(self->data_size, self->partial_has, self->partial_val, g_draws, g_last_max, g_last_ret, __CPROVER_object_whole(self->data_))
+/* one item, drawn from all items, leaves the array and becomes the partial item; the others stay (the last one fills the gap) */
+__CPROVER_ensures(self->data_size == __CPROVER_old(self->data_size) - 1 && self->partial_has && g_last_max == (uint32_t)__CPROVER_old(self->data_size) && g_last_ret <= self->data_size)
+__CPROVER_ensures(g_i == g_last_ret ==> self->partial_val == g_v)
+__CPROVER_ensures((g_i != g_last_ret && g_i < self->data_size) ==> self->data_[g_i] == g_v)
+__CPROVER_ensures(g_last_ret < self->data_size ==> self->data_[g_last_ret] == g_last0)
+""",
+}
+swap_partial = {
+    "name": "swap_with_partial", "file": F, "members": MEMBERS, "match": r"void ebpps_sample<T,A>::swap_with_partial\(\)", "sig": "void swap_with_partial(struct ebsample* self)", "nloops": 0,
+    "pre_rules": PART_RULES + [(r"if \(partial_item_\)", "if (partial_has)", 1), (r"std::swap\(data_\[idx\], \*partial_item_\);", "{ T t_ = data_[idx]; data_[idx] = partial_val; partial_val = t_; }", 1)],
+    "rules": [(r"(?<![\w>])data_size", "self->data_size", "any"), (r"(?<![\w>])partial_(has|val)", r"self->partial_\1", "any")],
+    "methods": ["random_idx", "move_one_to_partial"],
+    "contract": "__CPROVER_requires(" + WFS + r""" && g_i < self->data_size && g_v == self->data_[g_i] && g_last0 == self->data_[self->data_size - 1] && g_part0 == self->partial_val)
+__CPROVER_assigns(self->data_size, self->partial_has, self->partial_val, g_draws, g_last_max, g_last_ret, __CPROVER_object_whole(self->data_))
+/* with a partial item: it trades places with one item drawn from all items, nothing else moves; without: as move_one_to_partial */
+__CPROVER_ensures(self->partial_has && g_last_max == (uint32_t)__CPROVER_old(self->data_size))
+__CPROVER_ensures(__CPROVER_old(self->partial_has) ==> (self->data_size == __CPROVER_old(self->data_size) && g_last_ret < self->data_size && self->data_[g_last_ret] == g_part0
+    && (g_i == g_last_ret ? self->partial_val == g_v : self->data_[g_i] == g_v)))
+__CPROVER_ensures(!__CPROVER_old(self->partial_has) ==> (self->data_size == __CPROVER_old(self->data_size) - 1 && (g_i == g_last_ret ==> self->partial_val == g_v)
+    && ((g_i != g_last_ret && g_i < self->data_size) ==> self->data_[g_i] == g_v)))
+""",
+}
+
 UNIT = {
     "id": "ebpps_subsample", "property": "C18",
     "clause": "ebpps_sample::subsample for every size and content: exactly num_samples items are kept, the items are only permuted before the cut (every kept item is taken from the input, none duplicated), "
-              "all indices stay inside the array, and draw number i ranges over all data_len - i items not yet fixed (the Fisher-Yates condition behind 'each item equally likely'); a full-size request changes nothing",
-    "prelude": PRELUDE, "parts": [subsample],
+              "all indices stay inside the array, and draw number i ranges over all data_len - i items not yet fixed (the Fisher-Yates condition behind 'each item equally likely'); a full-size request changes nothing; set_partial / move_one_to_partial / swap_with_partial: the item that becomes (or trades places with) the partial item is drawn from all items, exactly one item leaves or enters the array, every other item stays",
+    "prelude": PRELUDE, "parts": [subsample, set_partial, move_one, swap_partial],
     "harness": r'''
 void h_subsample(void) {
   struct ebsample* s = malloc(sizeof(*s)); __CPROVER_assume(s != NULL); size_t n = nondet_size(); __CPROVER_assume(n >= 1 && n <= ((size_t)1 << 26));
   s->data_ = malloc(sizeof(T) * n); __CPROVER_assume(s->data_ != NULL); s->data_size = n;
   subsample(s, nondet_u32()); VERIF_CANARY_POINT;
 }
+static struct ebsample* mk_s(void) { struct ebsample* s = malloc(sizeof(*s)); __CPROVER_assume(s != NULL); size_t n = nondet_size(); __CPROVER_assume(n >= 1 && n <= ((size_t)1 << 26));
+  s->data_ = malloc(sizeof(T) * n); __CPROVER_assume(s->data_ != NULL); s->data_size = n; return s; }
+void h_set_partial(void) { struct ebsample* s = mk_s(); set_partial(s, nondet_u64()); VERIF_CANARY_POINT; }
+void h_move_one(void) { struct ebsample* s = mk_s(); move_one_to_partial(s); VERIF_CANARY_POINT; }
+void h_swap_partial(void) { struct ebsample* s = mk_s(); swap_with_partial(s); VERIF_CANARY_POINT; }
 ''',
-    "jobs": [{"name": "subsample", "entry": "h_subsample", "enforce": "subsample", "replace": ["random_idx"], "loops": True, "expect_loop_steps": 1, "timeout": 600}],
+    "jobs": [{"name": "subsample", "entry": "h_subsample", "enforce": "subsample", "replace": ["random_idx"], "loops": True, "expect_loop_steps": 1, "timeout": 600},
+             {"name": "set_partial", "entry": "h_set_partial", "enforce": "set_partial", "timeout": 300},
+             {"name": "move_one_to_partial", "entry": "h_move_one", "enforce": "move_one_to_partial", "replace": ["random_idx", "set_partial"], "timeout": 300},
+             {"name": "swap_with_partial", "entry": "h_swap_partial", "enforce": "swap_with_partial", "replace": ["random_idx", "move_one_to_partial"], "timeout": 300}],
     "assumptions": ["random_idx is trusted to return a value in [0, max): the value is adversarial, so what is proved holds for every outcome; uniformity of the draw itself is a property of std::uniform_int_distribution and is not decided",
-                    "std::vector<T> data_ is (pointer, size); erase(erase_start, end) is 'size = erase_start'; items are uint64_t"],
+                    "optional<T> partial_item_ is (has, value); std::vector<T> data_ is (pointer, size); erase(erase_start, end) is 'size = erase_start'; items are uint64_t"],
 }
